@@ -9,7 +9,8 @@ import random
 from .. import core, mm, pymach as pm, sx
 from .c03 import unify_syms
 
-THEOREMS = ['C16.translation_succeeds', 'C16.translation_accepted', 'C16.layout_independent']
+THEOREMS = ['C16.translation_succeeds', 'C16.translation_accepted', 'C16.layout_independent',
+            'C16.exec_proof_translated', 'C16.exec_proof_step_text_is_the_model', 'C16.exec_proof_text_is_the_model']
 
 
 def image(t, float_order):
